@@ -18,9 +18,11 @@ set_option linter.unusedVariables false
 namespace PdeVerif.Controller
 open PdeVerif
 
-section
-variable {K : Type} [Field K] [LinearOrder K] [IsStrictOrderedRing K] [FloorRing K]
-variable {S σ : Type}
+section lawfree
+/- no property of the arithmetic is used in this section: `K` is any type with the operation symbols of
+the model (so the statements hold for exact fields and literally for `K := Float`) -/
+variable {K S σ : Type} [Add K] [Sub K] [Mul K] [Div K] [Neg K] [NatCast K] [IntCast K]
+variable [LT K] [DecidableLT K] [LE K] [DecidableLE K] [HasFloor K]
 
 /-! ### the heap-level run refines the value-level run -/
 
@@ -41,25 +43,27 @@ theorem iterOnceH_refines (c : Cfg K S σ) (w : Nat) (hs : HLState K S σ) :
     (iterOnceH c w hs).1.abs w = (iterOnce c (hs.abs w)).1 ∧
       (iterOnceH c w hs).2 = (iterOnce c (hs.abs w)).2 ∧
       Heap.FrameOf w hs.heap (iterOnceH c w hs).1.heap := by
-  rcases iterOnce_cases c (hs.abs w) with ⟨hc, e⟩ | ⟨hc, r, hr, e⟩ | ⟨hc, hn, e⟩
-  · have hc' : ¬ hs.t < c.tEnd - c.eps * c.dt := hc
-    rw [e]; unfold iterOnceH; rw [if_neg hc']
+  by_cases hc : hs.t < c.tEnd - c.eps * c.dt
+  · have hc' : (hs.abs w).t < c.tEnd - c.eps * c.dt := hc
+    cases hh : (handleAll c.nxt (half * c.dt) hs.t (hs.heap.cell w) 0 hs.trs).2.2 with
+    | some r =>
+      have hh' : (handleAll c.nxt (half * c.dt) (hs.abs w).t (hs.abs w).u 0 (hs.abs w).trs).2.2 = some r := hh
+      unfold iterOnceH iterOnce
+      rw [if_pos hc, if_pos hc']
+      simp only [hh, hh']
+      exact ⟨rfl, trivial, Heap.FrameOf.refl _ _⟩
+    | none =>
+      have hh' : (handleAll c.nxt (half * c.dt) (hs.abs w).t (hs.abs w).u 0 (hs.abs w).trs).2.2 = none := hh
+      unfold iterOnceH iterOnce
+      rw [if_pos hc, if_pos hc']
+      simp only [hh, hh']
+      refine ⟨?_, trivial, ?_, rfl⟩
+      · simp [HLState.abs, Heap.write]
+      · intro b hb; simp [Heap.write, hb]
+  · have hc' : ¬ (hs.abs w).t < c.tEnd - c.eps * c.dt := hc
+    unfold iterOnceH iterOnce
+    rw [if_neg hc, if_neg hc']
     exact ⟨rfl, rfl, Heap.FrameOf.refl _ _⟩
-  · have hc' : hs.t < c.tEnd - c.eps * c.dt := hc
-    have hr' : (handleAll c.nxt (half * c.dt) hs.t (hs.heap.cell w) 0 hs.trs).2.2 = some r := hr
-    rw [e]; unfold iterOnceH; rw [if_pos hc']; simp only [hr']
-    refine ⟨?_, ?_, ?_⟩
-    · trivial
-    · trivial
-    · exact Heap.FrameOf.refl _ _
-  · have hc' : hs.t < c.tEnd - c.eps * c.dt := hc
-    have hn' : (handleAll c.nxt (half * c.dt) hs.t (hs.heap.cell w) 0 hs.trs).2.2 = none := hn
-    rw [e]; unfold iterOnceH; rw [if_pos hc']; simp only [hn']
-    refine ⟨?_, ?_, ?_, ?_⟩
-    · simp [HLState.abs, advance, mainHandle, Heap.write]
-    · trivial
-    · intro b hb; simp [Heap.write, hb]
-    · trivial
 
 theorem loopH_refines (c : Cfg K S σ) (w : Nat) :
     ∀ (fuel : Nat) (hs : HLState K S σ),
@@ -178,6 +182,26 @@ theorem missing_copy_modifies_initial (c : Cfg K S σ) (h : Heap S) (a : Nat) (t
       (runHeapAt c h a trs fuel).heap.cell a = (runFuel c (h.cell a) trs fuel).state := by
   obtain ⟨h0, h1, _⟩ := runHeapAt_refines c h a trs fuel
   exact ⟨h0, h1⟩
+
+/-- `initial_state_untouched` and `runHeap_refines` at `K := Float` (the IEEE instantiation the driver
+replays against the real code): whatever rounding does to times and step counts, the caller's
+object is not written, the result is a fresh object, and the heap-level run is the value-level run. -/
+theorem float_initial_state_untouched (c : Cfg Float S σ) (h : Heap S) (a : Nat) (ha : a < h.next)
+    (trs : List (Tracker Float S σ)) (fuel : Nat) :
+    (∀ b, b < h.next → (runHeapFuel c h a trs fuel).heap.cell b = h.cell b) ∧
+      (runHeapFuel c h a trs fuel).obj ≠ a ∧
+      (runHeapFuel c h a trs fuel).heap.cell (runHeapFuel c h a trs fuel).obj = (runFuel c (h.cell a) trs fuel).state ∧
+      (runHeapFuel c h a trs fuel).steps = (runFuel c (h.cell a) trs fuel).steps ∧
+      (runHeapFuel c h a trs fuel).tFinal = (runFuel c (h.cell a) trs fuel).tFinal := by
+  obtain ⟨u1, _, u3, _, _⟩ := initial_state_untouched c h a ha trs fuel
+  obtain ⟨r1, r2, r3, _⟩ := runHeap_refines c h a trs fuel
+  exact ⟨u1, u3, r1, r3, r2⟩
+
+end lawfree
+
+section
+variable {K : Type} [Field K] [LinearOrder K] [IsStrictOrderedRing K] [FloorRing K]
+variable {S σ : Type}
 
 /-! ### every tracker schedule kind composed with the controller loop (`runSpec`, the function the driver evaluates)
 
